@@ -175,7 +175,11 @@ class ZConfigParser:
 
     def handle_include(self, section, rest):
         rest = self.replace(rest.strip())
-        newurl = ZConfig.url.urljoin(self.url, rest)
+        try:
+            newurl = ZConfig.url.urljoin(self.url, rest)
+        except ValueError as e:
+            # urllib rejects malformed URLs such as "http://[::1"
+            self.error(f"invalid %include URL {rest!r}: {e}")
         self.context.includeConfiguration(section, newurl, self.defines)
 
     def handle_define(self, section, rest):
